@@ -232,11 +232,16 @@ class AsyncIOClient(ABC):
         reading (e.g., connection lost), it will trigger a reconnection attempt.
         """
         self.logger.info("Received loop started")
+        reader = self.reader
         try:
             while self._state != State.CLOSED:
                 await self._receive_impl()
         except Exception as ex:
-            if self._state != State.CLOSED:
+            if self.reader is not reader:
+                # connect() has already replaced the connection this loop was started for (it cancels this
+                # task once the CONNECTED notification has returned): the new connection is not the one that failed
+                self.logger.info(f"Receive loop of a replaced connection ended: {ex}")
+            elif self._state != State.CLOSED:
                 self.logger.error(f"Connection lost while reading. Error: {ex}. Reconnecting...", exc_info=True)
                 await self._update_state(State.DISCONNECTED)
                 asyncio.create_task(self.connect())
